@@ -658,11 +658,15 @@ def check_C08(tier, seed):
                               menu_sizes=(1, 2), p_fal=0.0, letters=(F.A, F.B), sigma=(F.A, F.B, 120),
                               depth=1)
     progs += F.join_templates(seed + 2, n // 2, 6000, k=k + 2, p_eoi=0.2, nsets=(2, 2, 3), p_ctx=0.3)
+    # rule sets without rules, entered by a switch: every character fails there
+    progs += F.random_general(seed + 7, max(8, n // 3), 9000, k=k, nsets=(2, 3), nrules=(0, 0, 1, 2),
+                              menu_sizes=(1, 2), p_fal=0.1, letters=(F.A, F.B), sigma=(F.A, F.B, 120))
     return generic_replay_check(
         "C08", tier, progs, proj_c08,
         "after an InvalidToken the lexer did not resume right after the examined text, in Init, and stay there",
         "programs: seeded random multi-rule-set definitions over {a,b} (inputs also contain the "
-        "unlexable letter x) with switch/continue/return menus; " + INPUTS_RULE +
+        "unlexable letter x) with switch/continue/return menus, some with rule sets that have no "
+        "rules; " + INPUTS_RULE +
         "compared: the whole trace after every InvalidToken (actions with user-state counter, "
         "tokens, further errors, final user state)")
 
@@ -1019,7 +1023,7 @@ def trace_part(out, pid, tier, progs, ws, batches, seed, n_runs, maxlen, proj, w
     return runs, reqs
 
 
-def c09_reason(evs, n_chars, free_running):
+def c09_reason(evs, n_chars, free_running, total_bytes=None):
     """C09 judged on a recorded trace alone: no panic / hang, every item accounts for new input
     (items are in input order and never go back over characters an earlier item already
     accounted for), at most n+1 items and n+1 actions, None is reached."""
@@ -1027,6 +1031,7 @@ def c09_reason(evs, n_chars, free_running):
     acts = 0
     saw_none = False
     last_end = 0        # byte index up to which earlier items have accounted for the input
+    err_at = None       # location of the error item just before, if any
     for e in evs:
         k = e["k"]
         if k == "P":
@@ -1039,6 +1044,13 @@ def c09_reason(evs, n_chars, free_running):
             if saw_none:
                 return "an item was produced after None"
             items += 1
+            # an InvalidToken raised before the end of the input consumes the offending character:
+            # whatever item follows starts beyond the error's location
+            start_ = e["s"][2] if k == "T" else e["at"][2]
+            if err_at is not None and start_ <= err_at:
+                return "the InvalidToken error located at byte %d accounted for no input: the next item starts at byte %d" % (
+                    err_at, start_)
+            err_at = e["at"][2] if (k == "I" and total_bytes is not None and e["at"][2] < total_bytes) else None
             if k == "T":
                 if e["s"][2] < last_end or e["e"][2] < e["s"][2]:
                     return "token %s spans bytes %d..%d but the input up to byte %d was already accounted for" % (
@@ -1093,7 +1105,7 @@ def check_C09(tier, seed):
             "Trace_RefLexer.tla; non-trivial = distinct (program, input, script)")
 
     def judge(desc_prefix, prog, req, actual, free):
-        why = c09_reason(actual, len(req["inp"]), free)
+        why = c09_reason(actual, len(req["inp"]), free, total_bytes=sum(utf8_len(c_) for c_ in req["inp"]))
         if why is None:
             return False
         out.violations.append({
@@ -3016,7 +3028,7 @@ def replay(pid, path):
         results = run_requests(ws, batches, [req], tag)
         r = results[0]
         if pl.get("why"):
-            why = c09_reason(strip_lx(r["ev"]), len(pl["input"]), True)
+            why = c09_reason(strip_lx(r["ev"]), len(pl["input"]), True, total_bytes=sum(utf8_len(c_) for c_ in pl["input"]))
             if why:
                 out.violations.append({"key": "replay", "desc": "still violated: %s" % why, "payload": dict(pl, actual=r["ev"][:200])})
             return out
